@@ -80,7 +80,9 @@ pub struct Spec {
     pub parser: ParserId,
     /// Index into DIMACS_TYPES / AIGER_TYPES (ignored for BTOR2).
     pub lit: u8,
-    /// ignore_header (cnf/wcnf/gcnf) or ignore_unknown_lines (solver log).
+    /// ignore_header (cnf/wcnf/gcnf), ignore_unknown_lines (solver log), or - for the AIGER
+    /// streaming section readers - "skip mode": only the first entry of every section is read
+    /// through `next_*`, the rest is left to the section transition functions to skip.
     pub flag: bool,
 }
 
@@ -454,7 +456,7 @@ fn header_item_binary(h: &flussab_aiger::binary::Header) -> Item {
     ])
 }
 
-fn drive_aag<L: Lit>(r: Init, c: &mut Collector) -> Result<(), Stop> {
+fn drive_aag<L: Lit>(r: Init, skip: bool, c: &mut Collector) -> Result<(), Stop> {
     use flussab_aiger::ascii::{Config, Parser};
     let p = make_parser!(Parser::<L>, r, Config::default()).map_err(stop_aiger)?;
     let h = p.header().clone();
@@ -463,6 +465,9 @@ fn drive_aag<L: Lit>(r: Init, c: &mut Collector) -> Result<(), Stop> {
     let mut s = p.inputs().map_err(stop_aiger)?;
     while let Some(l) = s.next_input().map_err(stop_aiger)? {
         c.push(|| Item::Lit { section: 'i', code: code(l) });
+        if skip {
+            break;
+        }
     }
     let mut s = s.latches().map_err(stop_aiger)?;
     while let Some(l) = s.next_latch().map_err(stop_aiger)? {
@@ -471,22 +476,37 @@ fn drive_aag<L: Lit>(r: Init, c: &mut Collector) -> Result<(), Stop> {
             next: code(l.next_state),
             init: l.initialization,
         });
+        if skip {
+            break;
+        }
     }
     let mut s = s.outputs().map_err(stop_aiger)?;
     while let Some(l) = s.next_output().map_err(stop_aiger)? {
         c.push(|| Item::Lit { section: 'o', code: code(l) });
+        if skip {
+            break;
+        }
     }
     let mut s = s.bad_state_properties().map_err(stop_aiger)?;
     while let Some(l) = s.next_bad_state_property().map_err(stop_aiger)? {
         c.push(|| Item::Lit { section: 'b', code: code(l) });
+        if skip {
+            break;
+        }
     }
     let mut s = s.invariant_constraints().map_err(stop_aiger)?;
     while let Some(l) = s.next_invariant_constraint().map_err(stop_aiger)? {
         c.push(|| Item::Lit { section: 'c', code: code(l) });
+        if skip {
+            break;
+        }
     }
     let mut s = s.justice_properties().map_err(stop_aiger)?;
     while let Some(n) = s.next_justice_property_size().map_err(stop_aiger)? {
         c.push(|| Item::JusticeSize(n as u64));
+        if skip {
+            break;
+        }
     }
     let mut s = s.justice_property_local_fairness_constraints().map_err(stop_aiger)?;
     while let Some(l) = s
@@ -494,10 +514,16 @@ fn drive_aag<L: Lit>(r: Init, c: &mut Collector) -> Result<(), Stop> {
         .map_err(stop_aiger)?
     {
         c.push(|| Item::Lit { section: 'j', code: code(l) });
+        if skip {
+            break;
+        }
     }
     let mut s = s.fairness_constraints().map_err(stop_aiger)?;
     while let Some(l) = s.next_fairness_constraint().map_err(stop_aiger)? {
         c.push(|| Item::Lit { section: 'f', code: code(l) });
+        if skip {
+            break;
+        }
     }
     let mut s = s.and_gates().map_err(stop_aiger)?;
     while let Some(g) = s.next_and_gate().map_err(stop_aiger)? {
@@ -505,12 +531,18 @@ fn drive_aag<L: Lit>(r: Init, c: &mut Collector) -> Result<(), Stop> {
             out: Some(code(g.output)),
             ins: [code(g.inputs[0]), code(g.inputs[1])],
         });
+        if skip {
+            break;
+        }
     }
     let mut s = s.symbols().map_err(stop_aiger)?;
     while let Some(sym) = s.next_symbol().map_err(stop_aiger)? {
         let (k, i) = sym_kind(sym.target);
         let name = sym.name.to_string();
         c.push(|| Item::Symbol { kind: k, index: i, name });
+        if skip {
+            break;
+        }
     }
     if let Some(cm) = s.comment().map_err(stop_aiger)? {
         let cm = cm.to_string();
@@ -519,7 +551,7 @@ fn drive_aag<L: Lit>(r: Init, c: &mut Collector) -> Result<(), Stop> {
     Ok(())
 }
 
-fn drive_aig<L: Lit>(r: Init, c: &mut Collector) -> Result<(), Stop> {
+fn drive_aig<L: Lit>(r: Init, skip: bool, c: &mut Collector) -> Result<(), Stop> {
     use flussab_aiger::binary::{Config, Parser};
     let p = make_parser!(Parser::<L>, r, Config::default()).map_err(stop_aiger)?;
     let h = p.header().clone();
@@ -532,22 +564,37 @@ fn drive_aig<L: Lit>(r: Init, c: &mut Collector) -> Result<(), Stop> {
             next: code(l.next_state),
             init: l.initialization,
         });
+        if skip {
+            break;
+        }
     }
     let mut s = s.outputs().map_err(stop_aiger)?;
     while let Some(l) = s.next_output().map_err(stop_aiger)? {
         c.push(|| Item::Lit { section: 'o', code: code(l) });
+        if skip {
+            break;
+        }
     }
     let mut s = s.bad_state_properties().map_err(stop_aiger)?;
     while let Some(l) = s.next_bad_state_property().map_err(stop_aiger)? {
         c.push(|| Item::Lit { section: 'b', code: code(l) });
+        if skip {
+            break;
+        }
     }
     let mut s = s.invariant_constraints().map_err(stop_aiger)?;
     while let Some(l) = s.next_invariant_constraint().map_err(stop_aiger)? {
         c.push(|| Item::Lit { section: 'c', code: code(l) });
+        if skip {
+            break;
+        }
     }
     let mut s = s.justice_properties().map_err(stop_aiger)?;
     while let Some(n) = s.next_justice_property_size().map_err(stop_aiger)? {
         c.push(|| Item::JusticeSize(n as u64));
+        if skip {
+            break;
+        }
     }
     let mut s = s.justice_property_local_fairness_constraints().map_err(stop_aiger)?;
     while let Some(l) = s
@@ -555,10 +602,16 @@ fn drive_aig<L: Lit>(r: Init, c: &mut Collector) -> Result<(), Stop> {
         .map_err(stop_aiger)?
     {
         c.push(|| Item::Lit { section: 'j', code: code(l) });
+        if skip {
+            break;
+        }
     }
     let mut s = s.fairness_constraints().map_err(stop_aiger)?;
     while let Some(l) = s.next_fairness_constraint().map_err(stop_aiger)? {
         c.push(|| Item::Lit { section: 'f', code: code(l) });
+        if skip {
+            break;
+        }
     }
     let mut s = s.and_gates().map_err(stop_aiger)?;
     while let Some(g) = s.next_and_gate().map_err(stop_aiger)? {
@@ -566,12 +619,18 @@ fn drive_aig<L: Lit>(r: Init, c: &mut Collector) -> Result<(), Stop> {
             out: None,
             ins: [code(g.inputs[0]), code(g.inputs[1])],
         });
+        if skip {
+            break;
+        }
     }
     let mut s = s.symbols().map_err(stop_aiger)?;
     while let Some(sym) = s.next_symbol().map_err(stop_aiger)? {
         let (k, i) = sym_kind(sym.target);
         let name = sym.name.to_string();
         c.push(|| Item::Symbol { kind: k, index: i, name });
+        if skip {
+            break;
+        }
     }
     if let Some(cm) = s.comment().map_err(stop_aiger)? {
         let cm = cm.to_string();
@@ -649,13 +708,24 @@ pub fn run_on_init(spec: &Spec, reader: Init, log: Rc<RefCell<SrcLog>>, collect:
                 }
             };
         }
+        macro_rules! aiger_stream {
+            ($f:ident) => {
+                match lit {
+                    0 => $f::<u8>(reader, flag, &mut c),
+                    1 => $f::<u16>(reader, flag, &mut c),
+                    2 => $f::<u32>(reader, flag, &mut c),
+                    3 => $f::<u64>(reader, flag, &mut c),
+                    _ => $f::<usize>(reader, flag, &mut c),
+                }
+            };
+        }
         match spec.parser {
             ParserId::Cnf => dimacs!(drive_cnf),
             ParserId::Wcnf => dimacs!(drive_wcnf),
             ParserId::Gcnf => dimacs!(drive_gcnf),
             ParserId::Log => dimacs!(drive_log),
-            ParserId::Aag => aiger!(drive_aag),
-            ParserId::Aig => aiger!(drive_aig),
+            ParserId::Aag => aiger_stream!(drive_aag),
+            ParserId::Aig => aiger_stream!(drive_aig),
             ParserId::AagParse => aiger!(drive_aag_parse),
             ParserId::AigParse => aiger!(drive_aig_parse),
             ParserId::Btor2 => drive_btor(reader, &mut c),
@@ -690,4 +760,41 @@ pub fn run(
     let t = run_on_init(spec, init, log.clone(), collect);
     let l = log.borrow().clone();
     (t, l)
+}
+
+/// What a streaming AIGER driver reports in skip mode: the header, the first entry of every
+/// section (the library skips the others in the transition functions) and the comment.
+pub fn skip_filter(items: &[Item]) -> Vec<Item> {
+    fn class(i: &Item) -> (u8, char) {
+        match i {
+            Item::Header(_) => (0, ' '),
+            Item::Lit { section, .. } => (1, *section),
+            Item::Latch { .. } => (2, ' '),
+            Item::JusticeSize(_) => (3, ' '),
+            Item::And { .. } => (4, ' '),
+            Item::Symbol { .. } => (5, ' '),
+            Item::Comment(_) => (6, ' '),
+            _ => (7, ' '),
+        }
+    }
+    let mut out: Vec<Item> = vec![];
+    let mut last: Option<(u8, char)> = None;
+    for it in items {
+        let c = class(it);
+        if Some(c) != last {
+            out.push(it.clone());
+        }
+        last = Some(c);
+    }
+    out
+}
+
+impl Spec {
+    pub fn skip_mode(&self) -> bool {
+        self.flag && matches!(self.parser, ParserId::Aag | ParserId::Aig)
+    }
+    /// Which parsers interpret the flag at all.
+    pub fn flag_applies(parser: ParserId) -> bool {
+        parser.is_dimacs() || matches!(parser, ParserId::Aag | ParserId::Aig)
+    }
 }
